@@ -178,10 +178,38 @@ def harness(tier, seed):
                 viol.append(("run_ode/analytic-integrator", info, f"max abs error {err}"))
         if len(samples) < 3:
             samples.append(info)
+    # ---- multi_run_ode: test and training starting states get their own numbers of rows and time limits, every
+    # collector gets (running index, the simulation, its figure of merit for the given dimensions and gamma, its end time)
+    from moptipyapps.dynamic_control.ode import multi_run_ode, t_from_ode
+    got_ = []
+    tests_ = [np.array([1.0, -2.0]), np.array([0.5, 0.25])]
+    train_ = [np.array([2.0, 1.0]), np.array([-1.0, 3.0]), np.array([0.1, 0.2])]
+    cfg_ = {"test_steps": 30, "test_time": 3.0, "training_steps": 17, "training_time": 2.0, "use_state_dims": 1, "gamma": 0.6}
+    try:
+        multi_run_ode(tests_, train_, [lambda i, o, j, t: got_.append((i, o.copy(), j, t))], lin_eq, const_ctrl, np.array([0.5]), 1,
+                      cfg_["test_steps"], cfg_["test_time"], cfg_["training_steps"], cfg_["training_time"],
+                      cfg_["use_state_dims"], cfg_["gamma"])
+        evals += 1
+        info = {"program": "multi_run_ode/linear-decay", **cfg_, "test_states": 2, "training_states": 3}
+        if [g[0] for g in got_] != list(range(5)):
+            viol.append(("multi_run_ode/indices", info, f"collector indices {[g[0] for g in got_]}"))
+        for k_, (i_, o_, j_, t_) in enumerate(got_):
+            start_ = (tests_ + train_)[k_]
+            st_, tm_ = (cfg_["test_steps"], cfg_["test_time"]) if k_ < 2 else (cfg_["training_steps"], cfg_["training_time"])
+            why = post_run_ode(o_, start_, const_ctrl, np.array([0.5]), 1, st_, tm_)
+            if why:
+                viol.append(("multi_run_ode/post", info, f"simulation {k_} ({'test' if k_ < 2 else 'training'}): {why}"))
+                break
+            jr_ = j_reference(o_, 2, cfg_["use_state_dims"], cfg_["gamma"])
+            if abs(j_ - jr_) > 1e-9 * max(1.0, abs(jr_)) or t_ != t_from_ode(o_) or t_ != o_[-1, -1]:
+                viol.append(("multi_run_ode/figure-of-merit", info, f"simulation {k_}: j={j_} reference={jr_}, t={t_}"))
+                break
+    except Exception as ex:     # noqa: BLE001
+        viol.append(("multi_run_ode/raises", cfg_, repr(ex)))
     seen = set()
     viol = [v for v in viol if not (v[0] in seen or seen.add(v[0]))]
     return {"name": "ode", "evaluations": evals, "distinct_nontrivial": len(distinct),
-            "rule": "programs: {Stuart-Landau, Lorenz} x {linear, quadratic, cubic, 2 ANNs} x random parameters and training "
+            "rule": "multi_run_ode with different row counts / time limits for test and training states; programs: {Stuart-Landau, Lorenz} x {linear, quadratic, cubic, 2 ANNs} x random parameters and training "
                     "starts; 2-D linear decay and integrator systems with closed-form solutions (tolerance 1e-2); controllers that "
                     "blow up immediately / exponentially / return NaN / inf; post-condition of run_ode, j_from_ode vs documented "
                     "formula (fsum reference); distinct = distinct (program, parameters, start)",
